@@ -76,7 +76,7 @@ Print Assumptions C02_start_if_trimmed_agrees_rev.
    reverse-strand contig; the repaired order cuts it at the bait boundary
    (repaired by a fix: commit) *)
 Theorem C02_legacy_refuted :
-  exists (b : bstate) (k : fkey), cut_fragments (mkCfg false true true true) b k = Err ValueError
+  exists (b : bstate) (k : fkey), cut_fragments (mkCfg false true true true true) b k = Err ValueError
     /\ exists b', cut_fragments repaired b k = Ok b' /\ b_cuts b' = b_cuts b + 1.
 Proof. exact legacy_keep_flags_refuted. Qed.
 Print Assumptions C02_legacy_refuted.
